@@ -128,9 +128,87 @@ func c04WalkCorrespondence(c *Ctx, lines []string, workers int) {
 	}
 }
 
+// ---- senc size check: Model/SencSize.lean against SencBox.ParseReadBox
+
+// "sencsize <iv> <count> <left>": a senc box without the sub-sample flag that announces <count> samples over <left>
+// per-sample bytes is decoded as a box and handed to its second-stage parser with the IV size <iv> of the context
+// (0 = unknown). Answer: "ok <IV size recorded> <IVs read>" or "err". Runs inside a worker (address-space limit).
+func c04SencSizeAnswer(req string) (ans string) {
+	defer func() {
+		if r := recover(); r != nil {
+			ans = fmt.Sprintf("panic: %v", r)
+		}
+	}()
+	f := strings.Fields(req)
+	if len(f) != 4 {
+		return "bad-request"
+	}
+	iv, count, left := atoi(f[1]), atoi(f[2]), atoi(f[3])
+	if iv < 0 || iv > 255 || count <= 0 || count > 0xffffffff || left <= 0 || left > 1<<20 {
+		return "bad-request"
+	}
+	bx, err := mp4.DecodeBox(0, bytes.NewReader(box("senc", c04Cat(c04U32(0, uint32(count)), make([]byte, left)))))
+	if err != nil {
+		return "decode-err"
+	}
+	s, ok := bx.(*mp4.SencBox)
+	if !ok || !s.ReadButNotParsed() {
+		return "not-pending"
+	}
+	if err := s.ParseReadBox(byte(iv), nil); err != nil {
+		return "err"
+	}
+	return fmt.Sprintf("ok %d %d", s.PerSampleIVSize(), len(s.IVs))
+}
+
+// c04SencSizeCorrespondence: IV sizes x payload lengths x the boundary sample counts (what fits, one more, and the
+// counts whose product with 8 / 16 / 24 / the IV size wraps 32 bits); a worker that dies on a request is a disagreement.
+func c04SencSizeCorrespondence(c *Ctx, workers int) {
+	r := c.R
+	var reqs []string
+	seen := map[string]bool{}
+	for _, iv := range []int{0, 8, 16, 1, 4, 7, 9, 24, 128, 255} {
+		for _, left := range []int{1, 7, 8, 9, 15, 16, 17, 24, 32, 48, 255, 256, 257, 1000 + r.Intn(3000)} {
+			per := iv
+			if per == 0 {
+				per = 8
+			}
+			counts := c04WrapSet([]int{8, 16, 24, iv}, uint32(left/per))
+			for _, d := range []int{8, 16, per, 1} {
+				counts = append(counts, uint32(left/d), uint32(left/d)+1)
+			}
+			counts = append(counts, 1, 2, 3, r.Uint32(), uint32(1+r.Intn(left+2)))
+			for _, n := range counts {
+				q := fmt.Sprintf("sencsize %d %d %d", iv, n, left)
+				if n == 0 || seen[q] {
+					continue
+				}
+				seen[q] = true
+				reqs = append(reqs, q)
+			}
+		}
+	}
+	answers := c04RunPool(reqs, workers, 400, nil)
+	for i, a := range answers {
+		a = strings.Split(a, " | ")[0]
+		switch {
+		case strings.HasPrefix(a, "ok "):
+			c.Count("senc size correspondence: accepted")
+		case a == "err":
+			c.Count("senc size correspondence: rejected")
+		case a == "-":
+			a = "worker died"
+			c.Count("senc size correspondence: worker died")
+		default:
+			c.Count("senc size correspondence: other answer")
+		}
+		c.Case(reqs[i], a)
+	}
+}
+
 func (cs c04Case) kindTop() string {
 	switch cs.origin {
-	case "F", "S", "P", "G", "scenario":
+	case "F", "S", "P", "G", "E", "scenario":
 		return "file"
 	}
 	return "box"
